@@ -302,3 +302,21 @@ Section Hom.
     change (mkRs (smap f init) (tape_map f tp) samp) with (rs_map f (mkRs init tp samp)). apply run_iters_hom.
   Qed.
 End Hom.
+
+(** * Non-vacuity of (b): on the example run (3 shuffled iterations, acceptance window of 2 calls) the scales of variable 0 are the
+    initial ones for its first two calls and the ADAPTED ones (one individual shrunk, the other enlarged) for the third *)
+Example run_scales_example :
+  exists o s0 sts,
+    personalize_run Q Qplus Qmult (fun q => q) ex_decide ex_att ex_regv ex_att ex_scf ex_acf 1 true 2 ex_orders ex_init [1; 2]%Q ex_tape = Done o /\
+    init_sampler ex_scf ind_scale_factor (repeat 1%Q 2) = Anneal.Ok s0 /\
+    run_sampler ex_scf s0 (map sr_acc (var_calls 0 (o_trace o))) = Anneal.Ok sts /\
+    map sr_sds (var_calls 0 (o_trace o)) = map std (removelast (s0 :: sts)) /\
+    nth_error (r_samp (o_rs o)) 0 = Some (last sts s0) /\
+    map (map Qred) (map sr_sds (var_calls 0 (o_trace o))) = [[1 # 2; 1 # 2]; [1 # 2; 1 # 2]; [9 # 20; 11 # 20]]%Q.
+Proof.
+  destruct (personalize_run Q Qplus Qmult (fun q => q) ex_decide ex_att ex_regv ex_att ex_scf ex_acf 1 true 2 ex_orders ex_init [1; 2]%Q ex_tape)
+    as [o|e] eqn:E; [|vm_compute in E; discriminate].
+  destruct (run_scales _ _ _ _ _ _ _ _ _ _ _ _ _ _ _ _ _ o 0%nat 1%Q E eq_refl) as (s0 & sts & I0 & R0 & M0 & N0).
+  exists o, s0, sts. repeat split; auto.
+  vm_compute in E. inversion E; subst o. vm_compute. reflexivity.
+Qed.
